@@ -52,7 +52,10 @@ func Balloon.AddBulk
 func Balloon.RefreshVersion
   props C05
   requires !isnil(b.store)
-  modifies b.version, versionSeenLoads
+  modifies b.version, versionSeenLoads, lastFound, lastKey8
+  // whatever the counter was, it becomes (last stored history version) + 1; an empty store leaves it alone
+  ensures C05/version-follows-the-store: isnil(result) && lastFound ==> be64(b.version - 1) == lastKey8
+  ensures C05/empty-store-keeps-the-version: !lastFound ==> b.version == old(b.version)
   // (bookkeeping for C09: the version is read from the store as it is now)
   assumes versionSeenLoads == snapshotLoads
 
